@@ -28,13 +28,3 @@ PROP_UNITS = {
                           'core::mem::replace, Ordering::is_le; debug assertion `cmp_in_place(lhs, rhs).is_ge()` (exec call) dropped: '
                           'it is the precondition val(lhs) > val(rhs)']},
 }
-
-KANI = {
-    'leh_gcd_ext': {
-        'package': 'dashu-int', 'target': 'integer/src/gcd/lehmer.rs', 'file': 'leh_gcd_ext.rs',
-        'harnesses': {
-            'vk_leh_gcd_ext_2w_%s' % n: {'kind': 'bounded', 'bound': 'one concrete point: lhs = 2^(BITS+1), rhs = B + r0 (two words each)'}
-            for n in ('cx0', 'odd', 'six', 'max', 'mid')
-        },
-    },
-}
